@@ -1,0 +1,49 @@
+//go:build verif
+
+package lazy
+
+// Verification-only accessors (build tag "verif"). Read-only peeks plus a
+// construction-time knob; nothing here takes part in a search.
+
+// VerifCacheInfo is a snapshot of a DFACache's bookkeeping.
+type VerifCacheInfo struct {
+	States       int
+	MemoryUsage  int
+	Capacity     int
+	ClearCount   int
+	FlatTransLen int
+	FlatTransCap int
+	StateListCap int
+	Stride       int
+}
+
+// VerifInfo returns the cache's current bookkeeping.
+func (c *DFACache) VerifInfo() VerifCacheInfo {
+	return VerifCacheInfo{
+		States:       len(c.states),
+		MemoryUsage:  c.MemoryUsage(),
+		Capacity:     c.capacityBytes,
+		ClearCount:   c.clearCount,
+		FlatTransLen: len(c.flatTrans),
+		FlatTransCap: cap(c.flatTrans),
+		StateListCap: cap(c.stateList),
+		Stride:       c.stride,
+	}
+}
+
+// VerifSetCache sets the capacity (bytes, >0) and clear budget (>=0) used for
+// caches created by NewCache from now on. Negative values leave a field alone.
+func (d *DFA) VerifSetCache(capacityBytes, maxClears int) {
+	if capacityBytes > 0 {
+		d.config.CacheCapacityBytes = capacityBytes
+	}
+	if maxClears >= 0 {
+		d.config.MaxCacheClears = maxClears
+	}
+}
+
+// VerifConfig returns the DFA's configuration.
+func (d *DFA) VerifConfig() Config { return d.config }
+
+// VerifNFAStates returns the number of states of the underlying NFA.
+func (d *DFA) VerifNFAStates() int { return d.nfa.States() }
